@@ -1,4 +1,6 @@
 """C19  Book lookups return exactly what the book file says."""
+import concurrent.futures
+import os
 import posgen
 from corr import *
 from vlib import *
@@ -100,6 +102,83 @@ def run(ctx):
             ctx.violation("decode_move differs: %s" % c[:80], {"op": c, "engine": a, "model": b}, key="c19dec:" + c[:60])
     ctx.cov["evaluations"] += len(dc) * len(codes)
     ctx.notes["draws_compared"] = ndraw
+    # ---- the UCI level: `setoption name Polyglot Book` + `go` on the real binary, in several command orders.  The book holds the
+    #      current position's published key (extracted spec) with legal moves and weights; `best` must answer a move of maximal weight,
+    #      `random` a recorded move of non-zero weight; the key probed must be the key of the CURRENT position (after ucinewgame: the
+    #      start position; after `moves`: the position reached) ----
+    import struct
+    import shutil
+    from ucisession import run_script
+    exe = engine_binary("plain")
+    scratch = os.path.join(BUILD, "c19_books")
+    os.makedirs(scratch, exist_ok=True)
+
+    def enc_move(m):
+        x = ((ord(m[1]) - 49) * 8 + (ord(m[0]) - 97)) * 64 + (ord(m[3]) - 49) * 8 + (ord(m[2]) - 97)
+        if len(m) == 5:
+            x |= {"n": 1, "b": 2, "r": 3, "q": 4}[m[4]] << 12
+        return x
+    CASTLE = {"e1g1": "e1h1", "e1c1": "e1a1", "e8g8": "e8h8", "e8c8": "e8a8"}
+    upos = posgen.valid_positions(model, rng, 60 if q else 800, extra=["r3k2r/8/8/8/8/8/8/R3K2R w KQkq - 0 1", "4k3/4P3/8/8/8/8/8/4K3 w - - 0 1", posgen.START])
+    rcu, ul, eu = run_lines(model, ["legal " + f for f in upos])
+    rcu, uk, eu = run_lines(model, ["pghash " + f for f in upos + [posgen.START]])
+    startkey = int(uk[-1].strip(), 16)
+    rcu, sl, eu = run_lines(model, ["legal " + posgen.START])
+    ujobs = []
+    for i, (f, l, k) in enumerate(zip(upos, ul, uk)):
+        ms = (l or "0").split()[1:]
+        if len(ms) < 2 or not k:
+            continue
+        kings = f.split()[0]
+        pick = rng.sample(ms, min(len(ms), rng.choice([2, 3, 4])))
+        ws = [rng.choice([0, 1, 1, 7, 100, 65535]) for _ in pick]
+        if max(ws) == 0:
+            ws[0] = 3
+        recs = []
+        for m, w in zip(pick, ws):
+            def piece_on(fen, sqn):
+                row = fen.split()[0].split("/")[8 - int(sqn[1])]
+                col = 0
+                for ch in row:
+                    if ch.isdigit():
+                        col += int(ch)
+                    else:
+                        if col == ord(sqn[0]) - 97:
+                            return ch
+                        col += 1
+                return None
+            mm = CASTLE[m] if (m in CASTLE and (piece_on(f, m[:2]) or "").lower() == "k") else m      # Polyglot stores castling as king-takes-rook
+            recs.append((int(k.strip(), 16), enc_move(mm), w))
+        sm = rng.choice((sl[0] or "").split()[1:])
+        recs.append((startkey, enc_move(sm), 9))
+        recs.sort(key=lambda r: r[0])
+        path = os.path.join(scratch, "u%d.bin" % i)
+        with open(path, "wb") as fh:
+            for key_, mv_, w_ in recs:
+                fh.write(struct.pack(">QHHI", key_, mv_, w_, 0))
+        best = [m for m, w in zip(pick, ws) if w == max(ws)]
+        nonzero = [m for m, w in zip(pick, ws) if w > 0]
+        opts = ["setoption name Polyglot Book value " + path]
+        if f != posgen.START:
+            ujobs.append((f, "best", best, opts + ["setoption name Polyglot Sample value best", "position fen " + f, "go depth 1"]))
+            ujobs.append((f, "random", nonzero, opts + ["setoption name Polyglot Sample value random", "position fen " + f, "go depth 1"]))
+            ujobs.append((posgen.START, "after ucinewgame", [sm], opts + ["setoption name Polyglot Sample value best", "position fen " + f, "ucinewgame", "go depth 1"]))
+            ujobs.append((f, "position after another position", best, opts + ["setoption name Polyglot Sample value best", "position startpos moves e2e4", "position fen " + f, "go depth 1"]))
+    with concurrent.futures.ThreadPoolExecutor(max_workers=NPROC) as ex:
+        ures = list(ex.map(lambda j: run_script(exe, j[3], go_timeout=60), ujobs))
+    shutil.rmtree(scratch, ignore_errors=True)
+    nu = 0
+    for (f, shape, allowed, script), r in zip(ujobs, ures):
+        nu += 1
+        b = r["bestmoves"][0] if r["bestmoves"] else None
+        if b not in allowed:
+            nviol += 1
+            if nviol <= 6:
+                ctx.violation("UCI level [%s]: the book recommends %s for '%s' but the engine answered %s" % (shape, "/".join(allowed), f, b),
+                              {"session": script, "allowed": allowed, "answer": b, "log": r["log"][-6:], "note": "the book file is rebuilt by the check; its records are in the session's setoption path at run time"},
+                              key="c19:uci:%s:%s" % (shape, f))
+    ctx.cov["evaluations"] += nu
+    ctx.notes["uci_level_book_sessions"] = nu
     ctx.cov["rule"] = ("%d book byte strings (empty, 0-5 records truncated at every offset 1..31, random books with duplicate keys / zero "
                        "weights / top-bit keys, random truncations): the loaded map must equal Book.read_book; %d weight vectors x 40 draws: every "
                        "sampled move compared exactly with the model given the same draw (the harness replays std::mt19937), plus the best move; "
